@@ -186,6 +186,11 @@ def token_mutations(rng):
     for n in (39, 40, 41, 42):
         out.append("#! mrasm\n" + "\n".join("l%d:" % i for i in range(n)) + "\nJMP l0\n")
         out.append("#! mrasm\n" + "\n".join(".EQU e%d 1" % i for i in range(n)))
+    # the limit counts definitions, not distinct names
+    out.append("#! mrasm\n" + "\n".join("l%d:" % i for i in range(40)) + "\nl0:\n")
+    out.append("#! mrasm\n" + "\n".join("l%d:" % i for i in range(40)) + "\nL7:\nJMP l0\n")
+    out.append("#! mrasm\n" + "\n".join("l%d:" % (i % 20) for i in range(41)) + "\n")
+    out.append("#! mrasm\n" + "\n".join("l%d:" % i for i in range(39)) + "\n.EQU l0 5\n.EQU L1 6\n")
     out.append("#! mrasm\nAbc:\nJMP ABC\nJMP abc\nLD R0, aBC\n")
     out.append("#! mrasm\nAbc:\nabc:\n")
     out.append("#! mrasm\nJMP abd\nabc:\n")
